@@ -281,6 +281,15 @@ def check(ctx):
                       "(which C13.R1 proves to be a decrease) has been executed before",
                       key="C08.R3:fast:%s" % f.name)
     ctx.floor("C08.R3", len(setters), 2)
+    # a cache that has no data yet answers every Reset Query at once with 'No Data Available': the receive in that cycle does not
+    # wait, so the arm itself has to (RFC 8210 section 8.4 / 10: retry after the retry interval)
+    outs_nd = fsm.explore_arm(pdb, st["RTR_ERROR_NO_DATA_AVAIL"], interesting={"sleep"})
+    slept = bool(outs_nd) and all(any(e[:2] == ("call", "sleep") for e in o["events"]) for o in outs_nd)
+    ctx.check(slept, "C08.R3", "no-data-arm-waits", "rtrlib/rtr/rtr.c",
+              "every path through the RTR_ERROR_NO_DATA_AVAIL arm sleeps before the next Reset Query" if slept else
+              "a path through the RTR_ERROR_NO_DATA_AVAIL arm does not sleep: %s" % [[e[:3] for e in o["events"][1:]] for o in outs_nd
+                                                                                    if not any(e[:2] == ("call", "sleep") for e in o["events"])][:1],
+              key="C08.R3:no-data-waits")
     # R5
     opens = [(b, ev) for (a, b, l, ev) in edges if a == st["RTR_CONNECTING"] and ("call", "tr_open", -1) in ev]
     ctx.check(bool(opens) and all(b == st["RTR_ERROR_TRANSPORT"] for b, ev in opens), "C08.R5", "open-failure", "rtrlib/rtr/rtr.c",
@@ -344,4 +353,7 @@ WITNESSES = [
     {"id": "C08.w8-send-failure-not-reported", "rule": "C08.R5", "also": ("C08.R4",), "file": PK,
      "old": "\tif (rtr_send_pdu(rtr_socket, &pdu, sizeof(pdu)) != RTR_SUCCESS) {\n\t\trtr_change_socket_state(rtr_socket, RTR_ERROR_TRANSPORT);\n\t\treturn RTR_ERROR;\n\t}\n\treturn RTR_SUCCESS;\n}\n\nint rtr_send_reset_query",
      "new": "\tif (rtr_send_pdu(rtr_socket, &pdu, sizeof(pdu)) != RTR_SUCCESS) {\n\t\treturn RTR_ERROR;\n\t}\n\treturn RTR_SUCCESS;\n}\n\nint rtr_send_reset_query"},
+    {"id": "C08.w-no-data-arm-without-wait", "rule": "C08.R3", "file": RT,
+     "old": "\t\t\trtr_change_socket_state(rtr_socket, RTR_RESET);\n\t\t\tsleep(rtr_socket->retry_interval);\n\t\t\trtr_purge_outdated_records(rtr_socket);",
+     "new": "\t\t\trtr_change_socket_state(rtr_socket, RTR_RESET);\n\t\t\tif (rtr_socket->state == RTR_ERROR_NO_DATA_AVAIL)\n\t\t\t\tsleep(rtr_socket->retry_interval);\n\t\t\trtr_purge_outdated_records(rtr_socket);"},
 ]
